@@ -191,7 +191,13 @@ def renderers(P):
         if f is not None:
             rs[name] = f
     meths = [g for g in P.fns.values() if _live(g) and (g.self_adt or "").endswith("::CliOutput") and g.kind == "AssocFn"
-             and any("FileStore" in t for t in g.sig_inputs)]
+             and any("FileStore" in t for t in g.sig_inputs) and g.sig_inputs and peel_ty(g.sig_inputs[0]).split("<")[0].endswith("::CliOutput")]
+    # a step shared by the renderers (resolving the collected errors once, a common look-up) is called by them, not by the dispatch
+    mp = {g.path for g in meths} | {g.path for g in rs.values()}
+    dispatch = {g.path for g in meths if g.name not in rs and _mentions_format(g.body)
+                and any(call_name(x) in mp - {g.path} for x in g.walk() if x.get("k") in ("Call", "MethodCall"))}
+    meths = [g for g in meths if g.path in dispatch or not (P.callers_of(g.path) and all(
+        c in mp - dispatch and c != g.path for c in P.callers_of(g.path) if "::tests" not in c))]
     if rs:
         for g in meths:
             rs.setdefault(g.name, g)
